@@ -141,10 +141,16 @@ def d3_collect_accounting(ctx, rm: REModel, rule="C05.D3-collect-advances-by-ind
                "" if ok else "a path through collect packs stream datums but neither emits events nor advances the counter: the next datums reuse seq_nums",
                nontrivial=True, witness=None if ok else g.path_to(seen, esc[0])[-8:], where=where(col, col.node))
     pk = rm.b("_pack_seq_nums_into_stream_datum")
-    txt = A.norm(pk.node)
-    ok1 = "indices_difference = doc['indices']['stop'] - doc['indices']['start']" in txt
-    ok2 = "current_seq_counter = self._sequence_counters[message_stream_name]" in txt
-    ok3 = "doc['seq_nums'] = StreamRange(start=current_seq_counter, stop=current_seq_counter + indices_difference)" in txt
+    # what is stored in doc['seq_nums'], with the function's temporaries substituted
+    st_seq = [x for x in A.walk_stmts(pk.node.body) if isinstance(x, ast.Assign) and A.norm(x.targets[0]) == "doc['seq_nums']"]
+    ok1 = ok2 = ok3 = False
+    if len(st_seq) == 1:
+        v = q.expand(pk.node, st_seq[0].value)
+        counter, width = "self._sequence_counters[message_stream_name]", "doc['indices']['stop'] - doc['indices']['start']"
+        ok3 = isinstance(v, ast.Call) and A.call_name(v) == "StreamRange" and A.kw(v, "start") is not None and A.kw(v, "stop") is not None
+        if ok3:
+            ok2 = A.norm(A.kw(v, "start")) == counter
+            ok1 = A.norm(A.kw(v, "stop")).replace("(", "").replace(")", "") in (f"{counter} + {width}", f"{width} + {counter}")
     ctx.ob(rule, cname(pk, None, "seq_nums = [counter, counter + (stop - start))"), ok1 and ok2 and ok3,
            "" if (ok1 and ok2 and ok3) else "stream-datum seq_nums are no longer contiguous with the stream's event counter", where=where(pk, pk.node))
     ok = any(isinstance(s, ast.Return) and A.norm(s.value) == "indices_difference" for s in A.walk_stmts(pk.node.body))
@@ -174,8 +180,7 @@ def run(ctx):
     from . import c04
     c04.rewindable_toggle_resets(ctx, rm, "C05.D4-snapshot-when-rewinding-is-re-enabled", directions=((False, True),))
     snap = rm.b("reset_checkpoint_state")
-    loops = [s for s in A.walk_stmts(snap.node.body) if isinstance(s, ast.For) and "self._sequence_counters" in A.norm(s.iter)]
-    ok = bool(loops) and any(isinstance(x, ast.Assign) and "self._sequence_counters_copy[" in A.norm(x.targets[0]) for x in A.walk_stmts(loops[0].body))
+    ok = any(q.copies_all_items(st, "self._sequence_counters", "self._sequence_counters_copy") for st in A.walk_stmts(snap.node.body))
     ctx.ob("C05.D4-snapshot-when-rewinding-is-re-enabled", cname(snap, None, "the reset snapshots every stream's counter"), ok,
            "" if ok else "the checkpoint no longer snapshots the sequence counters", where=where(snap, snap.node))
 
